@@ -987,6 +987,9 @@ func InjectSchemaFaults(r *Rng, s *GSchema, n int) {
 	}
 	for i := 0; i < n; i++ {
 		k := r.Intn(22)
+		if i == 0 && len(s.narrowedFields()) > 0 && r.Chance(1, 3) {
+			k = 18 // the covariance relation a narrowed field relies on is what sibling schemas differ in
+		}
 		switch k {
 		case 20, 21:
 			// an invalid extension of a type the prelude defines
